@@ -82,7 +82,10 @@ func (c *checker) runAll() {
 // runNamed: a subset.  "pkg.(*T).M#bias" selects a bias vector, "#a24" the
 // Montgomery ladder multiplier.
 func (c *checker) runNamed(names []string) {
+	c.only = map[string]bool{}
+	defer c.controls()
 	for _, n := range names {
+		c.only[n] = true
 		switch {
 		case strings.HasSuffix(n, "#bias"):
 			rel, name, ok := splitQualified(strings.TrimSuffix(n, "#bias"))
